@@ -247,7 +247,8 @@ class Negotiated:
         if self.received_open.router_id == RouterID('0.0.0.0'):
             return (2, 3, '0.0.0.0 is an invalid router_id')
 
-        if self.peer_as == neighbor.session.local_as:
+        # with local-as auto the configured value is unset: the AS of this session is the negotiated one
+        if self.peer_as == (neighbor.session.local_as or self.local_as):
             # router-id must be unique within an ASN
             if self.received_open.router_id == neighbor.session.router_id:
                 return (
